@@ -562,6 +562,38 @@ def emit_search(block, cx):
     return rest(0)
 
 
+def emit_accum(block, var, cx, top=True):
+    """a block that accumulates into the mutable variable `var` (`let mut var = e;`, `var += e;`, `for` loops that do the
+    same) and, at top level, ends in an expression using it: nested fold_left"""
+    if block[0] != "block":
+        raise TranslateError("not a block")
+
+    def rest(i):
+        if i == len(block[1]):
+            if top:
+                if block[2] is None:
+                    raise TranslateError("an accumulating function must end in an expression")
+                return emit(block[2], cx)
+            if block[2] is not None:
+                raise TranslateError("an accumulating loop body may not end in a value")
+            return var
+        s = block[1][i]
+        if s[0] == "let":
+            return "(let %s := %s in %s)" % (s[1], emit(s[2], cx), rest(i + 1))
+        if s[0] == "assign":
+            if s[1] != var:
+                raise TranslateError("assignment to %s in a loop accumulating %s" % (s[1], var))
+            rhs = emit(s[3], cx)
+            if s[2] != "=":
+                rhs = "(%s %s %s)" % (var, s[2][0], rhs)
+            return "(let %s := %s in %s)" % (var, rhs, rest(i + 1))
+        if s[0] == "for":
+            body = emit_accum(s[3], var, cx, top=False)
+            return "(let %s := fold_left (fun %s %s => %s) %s %s in %s)" % (var, var, pat_text(s[1]), body, emit(s[2], cx), var, rest(i + 1))
+        raise TranslateError("unsupported statement in an accumulating loop")
+    return rest(0)
+
+
 def fn_body(src, name, nth=0, after=None):
     """the text between the braces of the nth `fn name(` (searching from the text `after`, e.g. an impl header)"""
     if after is not None:
